@@ -689,11 +689,57 @@ fn gen_c15_chunks(tier: &str, seed: u64) -> Vec<Vec<String>> {
 pub fn gen_c15(tier: &str, seed: u64) -> Vec<Vec<String>> {
     let mut v = gen_c15_chunks(tier, seed);
     v.extend(gen_c15_records(tier, seed));
+    v.extend(gen_c15_same_spec_reset(tier, seed));
     v
 }
 
 fn gen_c15_records(tier: &str, seed: u64) -> Vec<Vec<String>> {
     gen_with(Opts { prop: "C15", size: true, age: false, force_rot: true, restarts: 0, cleanup: false, faults: false, ext: false, modes: true, max_ops: 40, namings: ALL, foreign: false, exist: false, bg: 0 }, tier, seed, 500, 6000)
+}
+/// C15: `reset_flw` onto the SAME file / family in every write mode — what is still in the old
+/// writer's buffer must be in the file before the new writer looks at it (size found when
+/// appending, truncation otherwise); the files after shutdown are those of the direct mode
+fn gen_c15_same_spec_reset(tier: &str, seed: u64) -> Vec<Vec<String>> {
+    let mut root = Rng::new(seed ^ 0xC15A);
+    let mut cases = Vec::new();
+    for k in 0..n_cases(tier, 120, 1500) {
+        let mut r = root.fork();
+        let naming = *r.pick(ALL);
+        let (spec, has_suffix) = gen_spec(&mut r, naming);
+        let spec_args = spec.replacen("SPEC ", "", 1);
+        // (asynchronous modes: `reset` takes the state lock directly and is not ordered with the records
+        //  still in the channel — which state writes them is a race, like `trigger_rotation`, 11.4)
+        let (mode, cap, is_async) = loop { let m = pick_mode(&mut r, &[8, 64, 1000, 8192], &[1, 3, 50], &[0, 10, 200]); if !m.2 { break m; } };
+        let n = *r.pick(&[5u64, 40, 90]);
+        let rot = if r.chance(1, 4) { None } else { Some(format!("{n};_;{naming};never")) };
+        let append = r.chance(2, 3);
+        let mut c = vec![format!("CASE flw C15 s{k}"), spec.clone()];
+        c.push(format!("MODE {mode}"));
+        c.push(format!("CFG {}", cfg_line(&rot, append, cap, false, has_suffix)));
+        let mut clock = Clock::new(&mut r);
+        let mut seq = 0u64;
+        for _ in 0..r.range(1, 3) {
+            for _ in 0..r.range(1, 6) {
+                if !is_async { clock.epoch += 1; }
+                let now = if is_async { clock.now() } else { clock.tick(&mut r) };
+                c.push(format!("W {} {now} -", hex(&record(seq, r.range(2, 30)))));
+                seq += 1;
+            }
+            if is_async { c.push("FLUSH".into()); }
+            c.push(format!("RESET {spec_args} {}", cfg_line(&rot, append, cap, false, has_suffix)));
+        }
+        for _ in 0..r.range(1, 6) {
+            if !is_async { clock.epoch += 1; }
+            let now = if is_async { clock.now() } else { clock.tick(&mut r) };
+            c.push(format!("W {} {now} -", hex(&record(seq, r.range(2, 30)))));
+            seq += 1;
+        }
+        c.push("SHUT".into());
+        c.push("SNAP".into());
+        c.push("END".into());
+        cases.push(c);
+    }
+    cases
 }
 /// C18: `reset_flw` with the SAME FileSpec and other rotation settings (rotation switched on or
 /// off): the records after the reset go to the newly specified file / family
